@@ -2601,8 +2601,6 @@ def r16(ctx):
     cg = CallGraph(repo)
     pf = repo.fn("HumanMessageSerializer.from_human_string")
     fns = _parser_fns(repo, cg, pf)
-    lit = [(g, c) for g in fns for c in calls(g.node, into_defs=True) if ap(c.func) == "ast.literal_eval"]
-    ctx.floor("C11.R16", "ast.literal_eval calls in the parser", len(lit), 1)
 
     def mentions_nonfinite(e, g) -> bool:
         texts = []
@@ -2642,6 +2640,8 @@ def r16(ctx):
                     if h.module is fmod and mentions_nonfinite(h.node, g):
                         return True
         return False
+    lit = [(g, c) for g in fns + helper_fns for c in calls(g.node, into_defs=True) if ap(c.func) == "ast.literal_eval"]
+    ctx.floor("C11.R16", "ast.literal_eval calls in the parser and its helpers", len(lit), 1)
     n_sites: Dict[str, int] = {}
     for g in fns + helper_fns:
         for c in calls(g.node, into_defs=True):
